@@ -215,3 +215,116 @@ def helper_inline(ctx, own=(), never=()):
         base = s.split("<")[0]
         return base in own or base not in units
     return pol
+
+
+_PRED_CACHE = {}
+
+
+def pred_table(ctx, clo, domain=range(256)):
+    """truth table of a one-argument closure / fn item over the given constants (its MIR is evaluated on each constant
+    by the abstract interpreter; no code is run).  -> {c: bool} or None when some value does not fold to a constant"""
+    from ..px import is_agg as _is_agg, is_const as _is_const
+    from .. import models as MM
+    body = MM.closure_body(clo)
+    if body is None or body not in ctx.facts.bodies:
+        return None
+    key = (id(ctx.facts), body, tuple(domain))
+    if key in _PRED_CACHE:
+        return _PRED_CACHE[key]
+    b = ctx.facts.bodies[body]
+    is_fn = isinstance(clo, tuple) and clo and clo[0] == "fn"
+    pidx = 1 if is_fn else 2
+    pty = b["locals"][pidx]["s"] if b["arg_count"] >= pidx else ""
+    # closures called through FnMut::call_mut receive their arguments as one tuple in MIR? (no: spread) - plain parameter
+    nref = len(pty) - len(pty.lstrip("&"))
+    out = {}
+    px = P.PX(ctx.facts, models=MM.install(None), inline=lambda c, d: True, max_paths=2000)
+    for cval in domain:
+        a = ("const", cval)
+        for _ in range(nref):
+            a = ("refconst", a)
+        try:
+            outs = px.run(body, args=([a] if is_fn else [clo, a]))
+        except Exception:
+            _PRED_CACHE[key] = None
+            return None
+        vals = {o.value for o in outs if o.kind == "return"}
+        if len(vals) != 1 or not _is_const(next(iter(vals))):
+            _PRED_CACHE[key] = None
+            return None
+        out[cval] = bool(next(iter(vals))[1])
+    _PRED_CACHE[key] = out
+    return out
+
+
+DIGITS = frozenset(range(48, 58))
+
+
+def all_digits_guard(ctx, o, e):
+    """classify an Iterator::all / Iterator::any call event e on path o whose predicate is a byte test:
+       "pass"  - its known result implies that every element is an ASCII digit,
+       "fail"  - its known result means the digits-only check was made and failed,
+       None    - not a digits check / result unknown"""
+    nm = e["callee"].get("path", "")
+    if not (nm.endswith("Iterator::all") or nm.endswith("Iterator::any")) or len(e["args"]) < 2:
+        return None
+    tab = pred_table(ctx, e["args"][1])
+    if tab is None:
+        return None
+    trues = {c for c, v in tab.items() if v}
+    falses = set(tab) - trues
+    r = o.cons.known.get(e.get("result"))
+    if r is None:
+        return None
+    if nm.endswith("::all"):
+        if trues != DIGITS and not (trues <= DIGITS and trues):
+            return None
+        if trues != DIGITS:
+            return None       # stricter than 1*DIGIT would reject grammatical numbers: not the digits check
+        return "pass" if r == 1 else "fail"
+    if falses != DIGITS:
+        return None
+    return "pass" if r == 0 else "fail"
+
+
+def pred_true_set(ctx, clo):
+    """the finite set of argument values on which a one-argument closure returns true, when every path returning true
+    pins its argument to a constant by an equality test (e.g. `|c| c == ' ' || c == '\\t'`); None otherwise"""
+    from .. import models as MM
+    body = MM.closure_body(clo)
+    if body is None or body not in ctx.facts.bodies:
+        return None
+    is_fn = isinstance(clo, tuple) and clo and clo[0] == "fn"
+    sym = ("sym", "pred_arg")
+    P.TY.setdefault(sym, (32, False))
+    px = P.PX(ctx.facts, models=MM.install(None), inline=lambda c, d: True, max_paths=2000)
+    try:
+        outs = px.run(body, args=([sym] if is_fn else [clo, sym]))
+    except Exception:
+        return None
+    trues = set()
+    for o in outs:
+        if o.kind != "return":
+            if o.kind in ("infeasible", "unreachable"):
+                continue
+            return None
+        v = o.value
+        if isinstance(v, tuple) and len(v) == 4 and v[0] == "binop" and v[1] == "Eq" and \
+                ((v[2] == sym and is_const(v[3])) or (v[3] == sym and is_const(v[2]))):
+            trues.add(v[3][1] if v[2] == sym else v[2][1])     # the result *is* an equality test of the argument
+            continue
+        if not is_const(v):
+            return None
+        if not v[1]:
+            continue
+        pins = set()
+        for k, val_ in o.cons.known.items():
+            if isinstance(k, tuple) and len(k) == 4 and k[0] == "binop" and k[1] == "Eq" and val_ == 1:
+                if k[2] == sym and is_const(k[3]):
+                    pins.add(k[3][1])
+                elif k[3] == sym and is_const(k[2]):
+                    pins.add(k[2][1])
+        if len(pins) != 1:
+            return None
+        trues |= pins
+    return trues
